@@ -1,26 +1,30 @@
-(* Replays edittrace lines on the extracted model (EditModel.edit_script_run, which contains the
-   C12 model of LCSFunc) and evaluates property C11 on the implementation's own output with the
+(* Replays edittrace lines on the extracted model (EditModel.edit_script_run_cap, which contains
+   the C12 model of LCSFunc; the inputs come with the contents of their spare capacity) and
+   evaluates property C11 on the implementation's own output with the
    extracted checkers of EditSpec (valid_script_gen, canonical, alternating, kept, eq_lists) and
    an independent LCS length (plain full-table DP written here). *)
 
 let eq_for mode : int -> int -> bool =
-  if mode > 0 then (fun a b -> a mod mode = b mod mode)
+  if mode > 100 then (let k = mode - 100 in fun a b -> a / k = b / k)
+  else if mode > 0 then (fun a b -> a mod mode = b mod mode)
   else if mode = -1 then (fun a b -> let d = a - b in d >= -1 && d <= 1)
   else if mode = -2 then (fun a b -> a < b)
+  else if mode = -3 then (fun a b -> a <= b)
   else (fun a b -> a = b)
 
 let op_char o = Char.chr (int_of_z (M.op_code o))
 let op_of_char c =
   List.find_opt (fun o -> op_char o = c) [M.Drop; M.Emit; M.Copy; M.Replace]
 
-(* edits with the offsets a script has when executed from (0, 0) *)
-let show_edits (es : int M.edit list) =
+(* edits with the offsets a script has when executed from (0, 0), and the capacity a two-index
+   slice expression s[lo:hi] has in Go: cap(s) - lo *)
+let show_edits lcap rcap (es : int M.edit list) =
   if es = [] then "." else begin
     let lp = ref 0 and rp = ref 0 in
     String.concat ";" (List.map (fun (e : int M.edit) ->
       let nx = List.length e.M.x and ny = List.length e.M.y in
-      let xo = if nx = 0 then "-" else string_of_int !lp in
-      let yo = if ny = 0 then "-" else string_of_int !rp in
+      let xo = if nx = 0 then "-" else Printf.sprintf "%d/%d" !lp (lcap - !lp) in
+      let yo = if ny = 0 then "-" else Printf.sprintf "%d/%d" !rp (rcap - !rp) in
       let s = Printf.sprintf "%c:%s:%s:%s:%s" (op_char e.M.eop) xo (str_ints e.M.x) yo (str_ints e.M.y) in
       (match e.M.eop with
        | M.Emit -> lp := !lp + nx; rp := !rp + nx
@@ -30,15 +34,22 @@ let show_edits (es : int M.edit list) =
 
 let parse_input inp =
   match words inp with
-  | ["E"; mode; l; r] -> Some (int_of_string mode, ints_of l, ints_of r)
+  | ["E"; mode; l; r] -> Some (int_of_string mode, ints_of l, ints_of r, [777; 777; 777], [888; 888; 888])
+  | ["E"; mode; l; r; lx; rx] -> Some (int_of_string mode, ints_of l, ints_of r, ints_of lx, ints_of rx)
   | _ -> None
+
+(* the whole backing arrays as the harness builds them: two guards, the input, the spare capacity *)
+let larr l lx = str_ints ([555; 555] @ l @ lx)
+let rarr r rx = str_ints ([666; 666] @ r @ rx)
 
 let eval inp =
   match parse_input inp with
   | None -> "?"
-  | Some (mode, l, r) ->
-    (match M.edit_script_run (eq_for mode) l r with
-     | M.EOk es -> show_edits es ^ " / " ^ str_ints l ^ " / " ^ str_ints r
+  | Some (mode, l, r, lx, rx) ->
+    (match M.edit_script_run_cap (eq_for mode) lx rx l r with
+     | M.EOk es ->
+       show_edits (List.length l + List.length lx) (List.length r + List.length rx) es
+       ^ " / " ^ larr l lx ^ " / " ^ rarr r rx
      | M.EPanic -> "PANIC index"
      | M.EOutOfFuel -> "FUEL")
 
@@ -60,6 +71,21 @@ let parse_edits s : (int M.edit * string * string) list =
        | None -> raise (Bad ("unknown Op byte " ^ o)))
     | _ -> raise (Bad ("bad edit syntax " ^ item))) (String.split_on_char ';' s)
 
+(* "<off>/<cap>" -> "<off>" *)
+let strip_cap s = match String.index_opt s '/' with Some i -> String.sub s 0 i | None -> s
+
+(* the offsets a script has when executed from (0, 0): "-" for an empty field *)
+let offsets_of (es : int M.edit list) =
+  let lp = ref 0 and rp = ref 0 in
+  List.map (fun (e : int M.edit) ->
+    let nx = List.length e.M.x and ny = List.length e.M.y in
+    let xo = if nx = 0 then "-" else string_of_int !lp in
+    let yo = if ny = 0 then "-" else string_of_int !rp in
+    (match e.M.eop with
+     | M.Emit -> lp := !lp + nx; rp := !rp + nx
+     | _ -> lp := !lp + nx; rp := !rp + ny);
+    (xo, yo)) es
+
 (* independent LCS length under eq: the textbook (m+1) x (n+1) table *)
 let lcs_len eq l r =
   let a = Array.of_list l and b = Array.of_list r in
@@ -74,7 +100,7 @@ let lcs_len eq l r =
 
 let spec prop inp out =
   match prop, parse_input inp with
-  | "C11", Some (mode, l, r) when mode >= 0 ->
+  | "C11", Some (mode, l, r, lx, rx) when mode >= 0 ->
     let eq = eq_for mode in
     if String.length out >= 5 && String.sub out 0 5 = "PANIC" then Some "EditScript panicked" else
     (match split3 out with
@@ -84,10 +110,12 @@ let spec prop inp out =
          let parsed = parse_edits eds in
          let es = List.map (fun (e, _, _) -> e) parsed in
          let same (a : int) (b : int) = (a = b) in
-         if la <> str_ints l || ra <> str_ints r then Some "an input was modified by the call"
+         if la <> larr l lx || ra <> rarr r rx then Some "an input (or what lies before / behind it in its array) was modified by the call"
          else if not (M.valid_script_gen eq same l r es) then
            Some "executing the edits does not consume lhs and produce rhs with X/Y the spans at the current offsets"
-         else if show_edits es <> eds then
+         else if List.exists (fun (_, xo, yo) -> xo = "?" || yo = "?") parsed
+              || List.map (fun (_, xo, yo) -> (strip_cap xo, strip_cap yo)) parsed
+                 <> offsets_of es then
            Some "an X or Y is not the sub-slice of its input at the current offset (aliasing)"
          else if not (M.canonical es) then
            Some "not canonical: an empty edit, two adjacent edits of one kind, or a Drop next to a Copy"
@@ -100,7 +128,12 @@ let spec prop inp out =
            else begin
              let k = int_of_nat (M.kept (M.expand l es)) and opt = lcs_len eq l r in
              if k <> opt then Some (Printf.sprintf "script keeps %d elements, a longest common subsequence has %d" k opt)
-             else None
+             else begin
+               let c = int_of_nat (M.cost (M.expand l es)) in
+               let least = List.length l + List.length r - 2 * opt in
+               if c <> least then Some (Printf.sprintf "script removes + inserts %d elements, %d suffice" c least)
+               else None
+             end
            end
          end
        with Bad m -> Some m))
